@@ -322,6 +322,13 @@ pub fn build_and_run_src(
     timeout_s: u64,
     nbins: usize,
 ) -> BatchResult {
+    // two runs that use the same generated package (the same check started twice at the same time) would
+    // overwrite each other's sources and binaries: the second one waits here until the first is through
+    let _ = fs::create_dir_all(verif_root().join("work"));
+    let lock = fs::OpenOptions::new().create(true).write(true).truncate(false).open(verif_root().join("work").join(format!("{}.lock", pkg))).ok();
+    if let Some(l) = &lock {
+        let _ = l.lock();
+    }
     let mut skip: BTreeSet<usize> = BTreeSet::new();
     let mut compile_fail: BTreeMap<usize, Vec<String>> = BTreeMap::new();
     let mut ref_fail: BTreeMap<usize, Vec<String>> = BTreeMap::new();
